@@ -1,4 +1,4 @@
-\* generated by the builder of C02/C08; see MCSearchers.tla for the families
+\* generated with the builder script of C02/C08; families: MCSearchers.tla
 SPECIFICATION Spec
 CONSTANTS
   SegSizes <- Segs22
@@ -6,9 +6,11 @@ CONSTANTS
   OneHitEnc = TRUE
   ScoreNone = TRUE
   HeapTakeover = 10
-  MaxCalls = 4
+  MaxCalls = 3
   NTerms = 3
-  Queries <- QFlatNoK1
+  Family = "flat"
+  DropK1 = TRUE
+  Queries <- MCQueries
   FirstAdvanceOK <- FirstAdvNoQ2
 VIEW View
 INVARIANT ResultOK
